@@ -32,3 +32,36 @@ pub fn patterns() -> Vec<String> {
 pub fn names() -> Vec<String> {
     lines("pkgnames.txt")
 }
+
+/// The string literals of the library under test (`lib/literals.py` writes
+/// them to `$PVH_AUX/literals.txt` before the shards start): `(file stem,
+/// bytes)`.  Empty when the file is absent (a harness run by hand).
+pub fn literals() -> &'static [(String, Vec<u8>)] {
+    static L: std::sync::OnceLock<Vec<(String, Vec<u8>)>> = std::sync::OnceLock::new();
+    L.get_or_init(|| {
+        let Ok(dir) = std::env::var("PVH_AUX") else { return vec![] };
+        let Ok(text) = std::fs::read_to_string(std::path::Path::new(&dir).join("literals.txt")) else { return vec![] };
+        let mut out = vec![];
+        for line in text.lines() {
+            let mut it = line.split(' ');
+            let (Some(stem), Some(hex)) = (it.next(), it.next()) else { continue };
+            let bytes: Option<Vec<u8>> = (0..hex.len() / 2).map(|i| u8::from_str_radix(&hex[2 * i..2 * i + 2], 16).ok()).collect();
+            if let Some(b) = bytes {
+                if !b.is_empty() {
+                    out.push((stem.to_string(), b));
+                }
+            }
+        }
+        out
+    })
+}
+
+/// The literals that are valid UTF-8, as strings, optionally only those of
+/// the given source files.
+pub fn literal_strs(stems: &[&str]) -> Vec<&'static str> {
+    literals()
+        .iter()
+        .filter(|(s, _)| stems.is_empty() || stems.contains(&s.as_str()))
+        .filter_map(|(_, b)| std::str::from_utf8(b).ok())
+        .collect()
+}
